@@ -262,7 +262,7 @@ PROPS["C18"] = {
             "same value, or a deep copy with one leaf changed minimally (integer +-1, adjacent float, one character); nil patterns are given typed and untyped. Oracle: Go ==/DeepEqual/pointee/identity as the statement lists them, symmetry, "
             "Any, In == union of Equals, stable on re-evaluation - also when the same expression object is next evaluated on a prefix/extension of the same slice or on "
             "the same pointer/slice/map after its referent was changed in place (answers must equal those of a freshly built expression) - and no panic. The membership question is also asked the way users ask it, "
-            "mocker.NewWhen(func(T) int).In(candidates...).Eval(y), incl. the candidate lists (nil, empty) / (empty, nil) of slice and map types and (candidates..., y). NaN, mixed signed zeros and interfaces of different dynamic types are "
+            "mocker.NewWhen(func(T) int).In(candidates...).Eval(y), incl. the candidate lists (nil, empty) / (empty, nil) of slice and map types and (candidates..., y). Expression independence: after Equals(x) answered for y, further Equals expressions (nil patterns for a map / pointer, a slice and an interface parameter type, and the same pattern for the same type) are built, resolved and evaluated; Equals(x).Eval(y) must not change. NaN, mixed signed zeros and interfaces of different dynamic types are "
             "generated and counted but not judged against Go equality. Non-trivial: a judged pair not built from two zero values; distinct by "
             "(type, x code, y code, relation, nil form).",
     "assumptions": ["arguments are presented to Eval as reflect.Values of the declared parameter type, as goom's own matcher does"],
@@ -343,7 +343,7 @@ PROPS["C01"] = {
             "register overflow of integer and float registers, stack-passed arrays/structs, variadics; every 8th function is a function literal bound to a package variable); calls use 5 forms (direct, func value, defer, go, "
             "reflect.Call), boundary-biased argument values, optionally from a goroutine that first recursed 20..620 frames. Oracle: the recorder - the "
             "replacement saw the caller's arguments bit-exactly (pointers by identity, floats by bit pattern), the caller received the replacement's / "
-            "the stub's results, the original body did not run, the replacement ran exactly once. Plus os.Getenv mocked and observed through "
+            "the stub's results, the original body did not run, the replacement ran exactly once. An applyname operation mocks a function that carries a live Func mock again through Pkg.ExportFunc (the by-name mock must be the one in force; the superseded handle is not used further), and some histories run with OpenDebug. Plus os.Getenv mocked and observed through "
             "os.ExpandEnv (library caller). Non-trivial: a history with a mocked call to a function with parameters or results and a non-zero "
             "argument or result; distinct by the sequence of (function, form, mock kind, value codes).",
     "assumptions": ["functions are compiled with -gcflags=all=-l as goom requires", "generic functions with parameters are not in this corpus (known finding, see C06)"],
@@ -401,7 +401,7 @@ PROPS["C07"] = {
             "replacement with the caller's arguments; an unmocked slot panics with 'method not implements'; variables are independent; after "
             "Reset the variable's two words equal the pre-mock words; mocks survive dropped builders and collections. Non-trivial: a history with "
             "an unmocked-slot call, a Reset of a mocked variable or a drop+GC; distinct by (interface, op sequence). A copy op hands the mocked value to another "
-            "variable of the interface type: it must answer like the first variable (also after re-mocks, dropped builders and collections) until the mock is reset.",
+            "variable of the interface type: it must answer like the first variable (also after re-mocks, dropped builders and collections) until the mock is reset; a never-mocked variable holding such a copy may then be mocked itself, and the source keeps exactly its own stubs.",
     "assumptions": ["process death (e.g. a stub jumping through collected memory) is turned into a violation by re-executing the journalled case"],
     "floors": [("histories", "call/unmocked-slot-panics", 100), ("histories", "call/mocked-slot-after-gc", 100),
                ("histories", "call/mocked-slot-after-builder-dropped", 50), ("histories", "variable-with->=2-mocked-slots", 100),
@@ -499,7 +499,7 @@ PROPS["C13"] = {
             "too few/many parameters or results; parameter/result of different size at position i; When with 1..n-1 arguments; Return with 1..n-1 "
             "values; return value of wrong size at position i; an ill-formed element j of a Returns(...) sequence (wrong size / too few values) on functions, "
             "struct methods and interface methods; unknown method / symbol / method by name; Interface given a non-pointer or a pointer "
-            "to a non-interface; interface callback without *IContext, with too few / too many parameters, wrong result count, unknown method. Oracle: "
+            "to a non-interface; interface callback without *IContext, with too few / too many parameters, wrong result count, unknown method; sizes include zero-size types at any position; the function target may be a method expression (*T).M. Oracle: "
             "the configuration call panics or errs; an error's cause chain terminates and reaches the repository's typed cause where one exists "
             "(ArgsNotMatch, ReturnsNotMatch, IllegalParamType); afterwards the executable image is unchanged, the target runs its original body, the "
             "interface variable is untouched and Reset does not panic. Every applicable mistake is non-trivial; distinct by (class, target, position).",
@@ -563,13 +563,13 @@ PROPS["C11"] = {
     "rule": "race build. rapid draws a round: 2..8 mocker goroutines, each with its own builders, looping apply -> call -> re-stub -> call -> reset -> call "
             "over two corpus functions of its own (all targets contiguous in the text, sharing pages with each other and with code being executed; "
             "some mockers address their targets by name; every third iteration a mocker also mocks a zoo function of its own and re-stubs it with an origin placeholder goom refuses; every mocker also stubs and resets its share of 16 tiny adjacent functions, two per 64-byte line, whose neighbours belong to other mockers; a steady When(k) stub is called with different k by different callers), and 2..8 caller goroutines hammering a steady set mocked before the round (Return stubs and "
-            "callbacks forwarding to the origin placeholder of frameless leaves), with generated iteration counts and yield points, all released by a "
+            "callbacks forwarding to the origin placeholder of frameless leaves - through frameless leaf placeholders, a pair being admitted only when the runtime's pc->frame-size table of the placeholder agrees with the relocated code at every pc; the generated framed placeholders are judged by the probe of open finding origin-placeholder-frame-metadata), with generated iteration counts and yield points, all released by a "
             "spin barrier. Oracle: no data-race report with a goom frame, no crash, every steady call yields the mocked result, every mocker sees "
             "exactly its own mock after its apply and the original after its reset, at quiescence the text image is pristine (outside placeholder "
             "bodies) and no text page is writable. Every round is non-trivial; distinct by its parameters.",
     "assumptions": ["the harness does not own the scheduler: seeded stress under the race detector, sound but incomplete",
                     "race builds use -gcflags=-d=checkptr=0 (the checkptr instrumentation -race turns on aborts inside CreateFuncForCodePtr; that is not a data race)"],
-    "floors": [("rounds", "steady-calls", 5000), ("rounds", "mocker-apply-restub-reset-cycles", 500)],
+    "floors": [("rounds", "steady-calls", 5000), ("rounds", "mocker-apply-restub-reset-cycles", 500), ("rounds", "steady-origin-callers/Z016", 20)],
 }
 
 PROPS["C19"] = {
